@@ -34,10 +34,23 @@ def checkReg (s : Step) : List String :=
     ++ W.chk (post.all (fun x => x == v || pre.contains x)) "registry-gained-unrelated-entry"
   | _, _ => W.chk (sameSet pre post) "registry-changed-by-unrelated-transaction"
 
+/-- C14, liveness sentence "while the engine is paused … Liquidate and PayFunding remain available": a Liquidate or
+    PayFunding on a paused engine that the implementation refuses BECAUSE of the pause (judged on its error text, like
+    `C09.checkLive` / `C16.checkLive`).  A model step carries no error text. -/
+def checkPauseLive (s : Step) : List String :=
+  match s.tx with
+  | .engine (.liquidate _ _ _) | .engine (.payFunding _) =>
+    W.chk (!(s.err != "" && !s.ok && s.pre.engine.st.pause && (s.err.splitOn "paused").length > 1)) "refused-because-the-engine-is-paused"
+  | _ => []
+
 end C14
 
 /-- clauses added after `extraChecks2` was enumerated by `SatExtra2` -/
 def extraChecks3 (s : Step) : List (String × List String) :=
   [("C14", C14.checkReg s)]
+
+/-- clauses added after `extraChecks3` was enumerated by `SatExtra3` -/
+def extraChecks4 (s : Step) : List (String × List String) :=
+  [("C14", C14.checkPauseLive s)]
 
 end Perp.Spec
